@@ -4,6 +4,7 @@ import Mathlib.Tactic.Ring
 import Mathlib.Tactic.Linarith
 import Mathlib.Tactic.FieldSimp
 import Mathlib.Tactic.NormNum
+import Mathlib.Analysis.SpecialFunctions.Trigonometric.Basic
 
 /-!
 # C17 — vertical interpolation, pressure/sigma/hybrid regridding, bilinear / nearest regridding
@@ -552,6 +553,61 @@ theorem nearest_self {P : Type} (d : P → P → K) (src : List P)
     simp only [List.getElem_map] at h1
     have h2 := hd i _ hi hr' (fun h => hne' h.symm)
     exact absurd h1 (not_le.mpr h2)
+
+/-- the hypothesis of `nearest_self` for the haversine distance over ℝ: a point with latitude strictly
+ between the poles is strictly closer to itself than to any other such point whose longitude differs
+ by less than a full turn -/
+theorem haversine_self_lt {lat1 lon1 lat2 lon2 : ℝ}
+    (h1 : -(Real.pi / 2) < lat1 ∧ lat1 < Real.pi / 2) (h2 : -(Real.pi / 2) < lat2 ∧ lat2 < Real.pi / 2)
+    (hlon : |lon2 - lon1| < 2 * Real.pi) (hne : lat1 ≠ lat2 ∨ lon1 ≠ lon2) :
+    haversine Real.sin Real.cos lat1 lon1 lat1 lon1 < haversine Real.sin Real.cos lat1 lon1 lat2 lon2 := by
+  have hpi := Real.pi_pos
+  have hc1 : 0 < Real.cos lat1 := Real.cos_pos_of_mem_Ioo ⟨h1.1, h1.2⟩
+  have hc2 : 0 < Real.cos lat2 := Real.cos_pos_of_mem_Ioo ⟨h2.1, h2.2⟩
+  have hl := abs_lt.mp hlon
+  have hself : haversine Real.sin Real.cos lat1 lon1 lat1 lon1 = 0 := by simp [haversine]
+  rw [hself]
+  unfold haversine
+  simp only [one_add_one_eq_two]
+  have q1 : 0 ≤ Real.sin ((lat2 - lat1) / 2) * Real.sin ((lat2 - lat1) / 2) := mul_self_nonneg _
+  have q2 : 0 ≤ Real.sin ((lon2 - lon1) / 2) * Real.sin ((lon2 - lon1) / 2) := mul_self_nonneg _
+  have hcc : 0 < Real.cos lat1 * Real.cos lat2 := mul_pos hc1 hc2
+  rcases hne with hne | hne
+  · have hs : Real.sin ((lat2 - lat1) / 2) ≠ 0 := by
+      intro h0
+      have := (Real.sin_eq_zero_iff_of_lt_of_lt (by linarith [h1.1, h1.2, h2.1, h2.2])
+        (by linarith [h1.1, h1.2, h2.1, h2.2])).mp h0
+      exact hne (by linarith)
+    have : 0 < Real.sin ((lat2 - lat1) / 2) * Real.sin ((lat2 - lat1) / 2) :=
+      lt_of_le_of_ne q1 (Ne.symm (mul_self_ne_zero.mpr hs))
+    have := mul_nonneg hcc.le q2
+    linarith
+  · have hs : Real.sin ((lon2 - lon1) / 2) ≠ 0 := by
+      intro h0
+      have := (Real.sin_eq_zero_iff_of_lt_of_lt (by linarith [hl.1]) (by linarith [hl.2])).mp h0
+      exact hne (by linarith)
+    have : 0 < Real.sin ((lon2 - lon1) / 2) * Real.sin ((lon2 - lon1) / 2) :=
+      lt_of_le_of_ne q2 (Ne.symm (mul_self_ne_zero.mpr hs))
+    have := mul_pos hcc this
+    linarith
+
+/-- nearest-neighbour indices (haversine distance, `sin`/`cos` of ℝ) from a grid to itself are the
+ identity for every grid without repeated points, with latitudes strictly between the poles and
+ longitudes within one turn (Gaussian and equiangular grids without pole nodes) -/
+theorem nearest_self_haversine (pts : List (ℝ × ℝ)) (hnd : pts.Nodup)
+    (hlat : ∀ p ∈ pts, -(Real.pi / 2) < p.1 ∧ p.1 < Real.pi / 2)
+    (hlon : ∀ p ∈ pts, ∀ q ∈ pts, |q.2 - p.2| < 2 * Real.pi) :
+    nearest (fun t s : ℝ × ℝ => haversine Real.sin Real.cos t.1 t.2 s.1 s.2) pts pts
+      = List.range pts.length := by
+  apply nearest_self
+  intro i j hi hj hij
+  have hpi := List.getElem_mem hi
+  have hpj := List.getElem_mem hj
+  apply haversine_self_lt (hlat _ hpi) (hlat _ hpj) (hlon _ hpi _ hpj)
+  by_contra hcon
+  have hcon' := not_or.mp hcon
+  have : pts[i] = pts[j] := Prod.ext (not_not.mp hcon'.1) (not_not.mp hcon'.2)
+  exact hij ((List.Nodup.getElem_inj_iff hnd).mp this)
 
 /-! ## non-vacuity: the hypotheses hold on concrete uneven node sets, and cannot be dropped -/
 
